@@ -221,11 +221,11 @@ FejerSafe(s) == NumMaxVecs(StateVecs(s)) <= 1024 /\ DenState(s) <= 1024
 Sol(I) == I.sol
 Err(I, x) == RSub(x, Sol(I))
 EnergyErr(I, x) == RDot(Err(I, x), MatVec(L1of(I), Err(I, x)))
-Resid2(I, x) == RNorm2(RSub(MatVec(L1of(I), x), I.b[1]))
+Resid2(I, x) == RNorm2(RSub(Fwd(I, 1, x), I.b[1]))
 Dist2(I, x) == RNorm2(Err(I, x))
 
 \* well-formedness certificates of the instances (exact)
-SolvesAll(I) == \A j \in 1..Len(I.Ls) : MatVec(I.Ls[j], Sol(I)) = I.b[j]
+SolvesAll(I) == \A j \in 1..Len(I.Ls) : Fwd(I, j, Sol(I)) = I.b[j]
 IsSym(M) == \A i \in 1..Len(M) : \A j \in 1..Len(M) : M[i][j] = M[j][i]
 Det2(M) == SSub(SMul(M[1][1], M[2][2]), SMul(M[1][2], M[2][1]))
 Det3(M) ==
@@ -291,25 +291,26 @@ StateAt(I, x, ys) ==
 FixedPointLaw ==
   (k = 0 /\ pc = 0 /\ inst.solver \in (NonSmooth \ {"dr"})) =>
      \A w \in KKTSet(inst) : \E s \in {StateAt(inst, w[1], w[2])} : RefStep(inst, s) = s
-\* DR (single operator, domain R^2): the KKT pair <<x, y>> lifts to the state (xi, v) with
-\*     v = y + sigma/2 L xi ,   xi = x - tau/2 L^T (2 y - v)
-\* i.e. (I - tau sigma/4 L^T L) xi = x - tau/2 L^T y  (solved by Cramer's rule; the matrix is positive
+\* DR (any number of operators, domain R^2): the KKT tuple <<x, y_1..y_m>> lifts to the state (xi, v) with
+\*     v_i = y_i + sigma_i/2 L_i xi ,   xi = x - tau/2 sum L_i^T (2 y_i - v_i)
+\* i.e. (I - tau/4 sum sigma_i L_i^T L_i) xi = x - tau/2 sum L_i^T y_i  (Cramer's rule; the matrix is positive
 \* definite for admissible steps); that state is a fixed point and reports x
 Solve2(M, r) ==
   LET d == Det2(M) IN
   << SDiv(SSub(SMul(r[1], M[2][2]), SMul(M[1][2], r[2])), d),
      SDiv(SSub(SMul(M[1][1], r[2]), SMul(M[2][1], r[1])), d) >>
 DRLiftXi(I, x, ys) ==
-  LET G == Gram(L1of(I))
-      c == SMul(SMul(I.tau, S1of(I)), <<1, 4>>)
-      M == [i \in 1..2 |-> [j \in 1..2 |-> SSub(IF i = j THEN QOne ELSE QZero, SMul(c, G[i][j]))]]
-  IN  Solve2(M, RSub(x, RScal(SMul(I.tau, Half), MatTVec(L1of(I), ys[1]))))
+  LET m == Len(I.Ls)
+      c == SMul(I.tau, <<1, 4>>)
+      G(a, b) == SSum([i \in 1..m |-> SMul(I.sig[i], Gram(I.Ls[i])[a][b])])      \* sum_i sigma_i L_i^T L_i
+      M == [a \in 1..2 |-> [b \in 1..2 |-> SSub(IF a = b THEN QOne ELSE QZero, SMul(c, G(a, b)))]]
+  IN  Solve2(M, RSub(x, RScal(SMul(I.tau, Half), AdjSum(I.Ls, ys, 2))))
 DRLift(I, x, ys) ==
   LET xi == DRLiftXi(I, x, ys)
   IN  [xi |-> xi, x |-> x,
-       v |-> <<RAdd(ys[1], RScal(SMul(S1of(I), Half), MatVec(L1of(I), xi)))>>]
+       v |-> [i \in 1..Len(I.Ls) |-> RAdd(ys[i], RScal(SMul(I.sig[i], Half), MatVec(I.Ls[i], xi)))]]
 DRFixedPointLaw ==
-  (k = 0 /\ pc = 0 /\ inst.solver = "dr" /\ Len(inst.Ls) = 1 /\ Dim(inst) = 2) =>
+  (k = 0 /\ pc = 0 /\ inst.solver = "dr" /\ Dim(inst) = 2) =>
      \A w \in KKTSet(inst) : \E s \in {DRLift(inst, w[1], w[2])} : RefStep(inst, s) = s
 \* the as-coded forward-backward variant has the same fixed points
 FBCodeFixedPointLaw ==
